@@ -44,6 +44,19 @@ RedStrip(t) == LET g == Gcd(Gcd(t.a, t.b), Gcd(t.lo, IF t.hi = INF THEN 0 ELSE t
 (* feasibility of a lattice point (i/8, j/8) in pure integer arithmetic *)
 GridFeasible(T, i, j) == \A t \in T : 8 * t.lo <= t.a * i + t.b * j /\ (t.hi = INF \/ t.a * i + t.b * j <= 8 * t.hi)
 
+(* Homogeneity of the strips.  For targets with the SAME intensity direction and the chroma offset multiplied by m,      *)
+(*   B_k(m) = N_k + m R_k   (written with the common factor L0 = sum(nu0):  L0 B_k(m) = sum(B_k) nu0 + m (L0 B_k - sum(B_k) nu0)), *)
+(* every facet strip keeps a, lo, hi and has b multiplied by m: the feasible polygon is stretched by 1/m along s1.       *)
+(* The harness uses this law (checked below on integer instances) to derive the exact strips of nearly achromatic        *)
+(* target sets (m = 2^-12), whose optimal chroma scale is in the thousands.                                              *)
+ChromaScaled(Bs, nu0, m) ==
+  [k \in 1..Len(Bs) |-> VAdd(VScale(Sum(Bs[k]), nu0), VScale(m, VSub(VScale(Sum(nu0), Bs[k]), VScale(Sum(Bs[k]), nu0))))]
+AxisStrips == {[a |-> 1, b |-> 0, lo |-> 0, hi |-> INF], [a |-> 0, b |-> 1, lo |-> 0, hi |-> INF]}
+StripHomogeneity(s, Bs, nu0, m) ==
+  LET L0 == Sum(nu0)
+  IN Strips(s, ChromaScaled(Bs, nu0, m), nu0) \ AxisStrips
+       = {[a |-> L0 * t.a, b |-> m * L0 * t.b, lo |-> t.lo, hi |-> t.hi] : t \in Strips(s, Bs, nu0) \ AxisStrips}
+
 AdaptiveRecord(s, Bs, nu0, w) ==
   LET T == {RedStrip(t) : t \in Strips(s, Bs, nu0)}
       FG == {<<i, j>> \in (0..32) \X (0..32) : GridFeasible(T, i, j)}
@@ -52,5 +65,6 @@ AdaptiveRecord(s, Bs, nu0, w) ==
       all_in |-> GridFeasible(T, 8, 8),
       fgrid |-> FG,                       \* feasible scale pairs in eighths
       (* (1,1) is feasible iff every target is in the gamut *)
-      ok |-> (GridFeasible(T, 8, 8) <=> \A k \in 1..Len(Bs) : ClassOf(s, Bs[k]) # "exterior")]
+      ok |-> (GridFeasible(T, 8, 8) <=> \A k \in 1..Len(Bs) : ClassOf(s, Bs[k]) # "exterior"),
+      homog |-> \A m \in 1..3 : StripHomogeneity(s, Bs, nu0, m)]
 =============================================================================
